@@ -195,7 +195,22 @@ func genValues(T *sim.Tape, api bool) []Value {
 
 // c01History drives one Writer through a drawn history of API-built results
 // and returns the acknowledged model stream.
+type cfgEnt struct {
+	val  string
+	file bool
+}
+
+func cloneShadow(m map[string]cfgEnt) map[string]cfgEnt {
+	c := make(map[string]cfgEnt, len(m))
+	for k, v := range m {
+		c[k] = v
+	}
+	return c
+}
+
 type c01Hist struct {
+	shadow     map[string]cfgEnt   // what the API calls so far mean for prev (independent of the Result's own bookkeeping)
+	oldShadows []map[string]cfgEnt // same for olds
 	r     *sim.Run
 	T     *sim.Tape
 	w     *Writer
@@ -209,6 +224,14 @@ type c01Hist struct {
 
 func (h *c01Hist) write(rec Record, what string) bool {
 	m := modelOf(rec)
+	if !m.meta {
+		m.cfg = map[string]string{}
+		for k, e := range h.shadow {
+			if e.file {
+				m.cfg[k] = e.val
+			}
+		}
+	}
 	h.r.Logf("%s -> %s", what, m)
 	if err := h.w.Write(rec); err != nil {
 		h.r.Logf("write error: %v", err)
@@ -246,11 +269,19 @@ func (h *c01Hist) step() bool {
 			res.Config = append(res.Config, Config{Key: k, Value: []byte(sim.Pick(T, c01Vals, "val")), File: T.Intn(4, "file") != 3})
 		}
 		h.prev = res
+		h.shadow = map[string]cfgEnt{}
+		for _, c := range res.Config {
+			h.shadow[c.Key] = cfgEnt{string(c.Value), c.File}
+		}
 		h.olds = append(h.olds, res)
+		h.oldShadows = append(h.oldShadows, h.shadow)
 		return h.write(res, "fresh")
 	case kind == 3: // clone of an earlier result
-		h.prev = sim.Pick(T, h.olds, "old").Clone()
+		oi := T.Intn(len(h.olds), "old")
+		h.prev = h.olds[oi].Clone()
+		h.shadow = cloneShadow(h.oldShadows[oi])
 		h.olds = append(h.olds, h.prev)
+		h.oldShadows = append(h.oldShadows, h.shadow)
 		return h.write(h.prev, "clone")
 	default: // edit the previous result in place, 1-3 edits
 		res := h.prev
@@ -262,10 +293,12 @@ func (h *c01Hist) step() bool {
 			case 0:
 				v := sim.Pick(T, c01Vals, "eval")
 				res.SetConfig(k, v) // becomes/stays internal
+				h.shadow[k] = cfgEnt{v, false}
 				desc = append(desc, fmt.Sprintf("SetConfig(%q,%q)", k, v))
 				h.flips++
 			case 1:
 				res.SetConfig(k, "")
+				delete(h.shadow, k)
 				desc = append(desc, fmt.Sprintf("SetConfig(%q,\"\")", k))
 			case 2: // add or rewrite as file configuration
 				v := sim.Pick(T, c01Vals, "eval")
@@ -277,10 +310,12 @@ func (h *c01Hist) step() bool {
 					idx, _ := res.ConfigIndex(k)
 					res.Config[idx].File = true
 				}
+				h.shadow[k] = cfgEnt{v, true}
 				desc = append(desc, fmt.Sprintf("file %q=%q", k, v))
 			case 3: // flip file<->internal of an existing entry
 				if idx, ok := res.ConfigIndex(k); ok {
 					res.Config[idx].File = !res.Config[idx].File
+					h.shadow[k] = cfgEnt{h.shadow[k].val, res.Config[idx].File}
 					desc = append(desc, fmt.Sprintf("flip %q file=%v", k, res.Config[idx].File))
 					h.flips++
 				}
@@ -291,7 +326,12 @@ func (h *c01Hist) step() bool {
 			case 5: // change value in place, keep flag
 				if idx, ok := res.ConfigIndex(k); ok {
 					v := sim.Pick(T, c01Vals, "eval")
-					res.Config[idx].Value = []byte(v)
+					if T.Bool("inplace") {
+						res.Config[idx].Value = append(res.Config[idx].Value[:0], v...) // reuse the buffer, as Reader does
+					} else {
+						res.Config[idx].Value = []byte(v)
+					}
+					h.shadow[k] = cfgEnt{v, h.shadow[k].file}
 					desc = append(desc, fmt.Sprintf("rewrite %q=%q", k, v))
 				}
 			}
